@@ -27,6 +27,74 @@ type rcCase struct {
 	Seed      int64  `json:"seed"`
 	KillAfter int    `json:"kill_after_ms"` // 0: kill only after everything finished
 	TLS       string `json:"tls"`
+	// CrashFirst: the plugin dies after Start and before the first Client(); then the goroutines use the client
+	CrashFirst bool `json:"crash_first,omitempty"`
+}
+
+// runCrashFirst: the plugin is started and dies before the host has ever connected; then n goroutines use
+// the client at once (the first Client() fails; what the others get must be an error or something usable).
+func runCrashFirst(c rcCase, p *vp.Pair, out map[string]interface{}) map[string]interface{} {
+	if _, err := p.Client.Start(); err != nil {
+		out["err"] = err.Error()
+		p.Client.Kill()
+		return out
+	}
+	out["setup_ok"] = true
+	if pr, err := os.FindProcess(p.Pid()); err == nil {
+		pr.Kill()
+	}
+	for i := 0; i < 400 && !p.Client.Exited(); i++ {
+		time.Sleep(5 * time.Millisecond)
+	}
+	var mu sync.Mutex
+	var ops atomic.Int64
+	guard := func(f func()) {
+		defer func() {
+			if r := recover(); r != nil {
+				mu.Lock()
+				out["panic"] = true
+				out["panic_msg"] = fmt.Sprint(r)
+				mu.Unlock()
+			}
+		}()
+		f()
+	}
+	guard(func() { p.Client.Client() }) // the first attempt, alone
+	var wg sync.WaitGroup
+	for g := 0; g < c.N; g++ {
+		wg.Add(1)
+		go func(g int) {
+			defer wg.Done()
+			rng := rand.New(rand.NewSource(c.Seed + int64(g)))
+			for i := 0; i < 20; i++ {
+				ops.Add(1)
+				guard(func() {
+					switch rng.Intn(6) {
+					case 0:
+						p.Client.Start()
+					case 1, 2:
+						if cp, err := p.Client.Client(); err == nil && cp != nil {
+							cp.Ping()
+							cp.Dispense("v")
+						}
+					case 3:
+						p.Client.Protocol()
+						p.Client.Exited()
+					case 4:
+						p.Client.ReattachConfig()
+					case 5:
+						if g == 0 && i > 10 {
+							p.Client.Kill()
+						}
+					}
+				})
+			}
+		}(g)
+	}
+	wg.Wait()
+	guard(func() { p.Client.Kill() })
+	out["ops"] = ops.Load()
+	return out
 }
 
 func runRaceCase(c rcCase, bin, tmp string) map[string]interface{} {
@@ -36,6 +104,9 @@ func runRaceCase(c rcCase, bin, tmp string) map[string]interface{} {
 	hc := &vp.HostCfg{LegacyVersion: 1, Legacy: &vp.SetCfg{Proto: "grpc", Tag: "1"}, Allowed: []string{"netrpc", "grpc"}, Mux: mux, TLS: c.TLS, TempDir: tmp}
 	raceLog := filepath.Join(tmp, c.Name+".pluginrace")
 	p := vp.NewPair(bin, hc, pc, []string{"GORACE=halt_on_error=0 log_path=" + raceLog}, nil)
+	if c.CrashFirst {
+		return runCrashFirst(c, p, out)
+	}
 	stub, cp, err := p.Dispense()
 	if err != nil {
 		out["err"] = err.Error()
